@@ -193,6 +193,57 @@ Proof. exact distinct_after_wildcards. Qed.
 Theorem C03_valid_input_not_wildcard : forall input, valid_input_b input = true -> input <> star.
 Proof. exact valid_input_not_star. Qed.
 
+(* ---- finding K-C03-stale-readin ------------------------------------------------------------------- *)
+(* Full statement (FALSE): on EVERY resume after HALT with input i and pending code b, the session goes
+   to the catch node with the invalid-input message only if i was compared with at least one INCMP
+   since the resume and none matched, the message showing THAT input; code that runs out without
+   executing an INCMP terminates the session.  READIN survives the HALT, so runDeadCheck can act on the
+   PREVIOUS input's comparison.  Partial: guard = the resumed code starts with an INCMP block
+   (decidable: starts_with_incmp), for ANY value of READIN and INMATCH left by the HALT. *)
+Theorem C03_invalid_input_is_current_partial : forall fuel rs sep lang input ds l v,
+  getf (v_st v) FLAG_TERMINATE = false -> s_input (v_st v) = Some input -> getf (v_st v) FLAG_WAIT = true ->
+  flags_ok (v_st v) ->
+  wf_block (ds :: l) -> no_match input (ds :: l) = true ->
+  where_sym (v_st v) <> [] -> where_sym (v_st v) <> catch_sym ->
+  starts_with_incmp (incmp_block (ds :: l)) = true /\
+  (out_of_fuel (run fuel rs sep lang (incmp_block (ds :: l)) v) \/
+   exists f lang1 v1, (f < fuel)%nat /\
+     run fuel rs sep lang (incmp_block (ds :: l)) v = run f rs sep lang1 move_catch_code v1
+     (* the message shows the input of THIS request *)
+     /\ p_err (v_pg v1) = Some (msg_invalid_input (Some input))
+     (* which was compared with every line of the block, and nothing moved before MOVE _catch *)
+     /\ v_log v1 = block_log (ds :: l) (v_log v)
+     /\ log_incmps (v_log v1) = (List.length (ds :: l) + log_incmps (v_log v))%nat
+     /\ pos_of (v_st v1) = pos_of (v_st v) /\ v_ca v1 = v_ca v).
+Proof. exact invalid_input_is_current_partial_lemma. Qed.
+
+Theorem C03_starts_with_incmp_block : forall ds l r,
+  wf_block (ds :: l) -> starts_with_incmp (incmp_block (ds :: l) ++ r) = true.
+Proof. exact incmp_block_starts. Qed.
+
+(* root = HALT; INCMP foo 1, _catch = HALT; MOVE end1, end1 = MOUT bye 0; after "" and "x" the engine
+   resumes with "y" on the code MOVE end1 *)
+Theorem C03_refuted_stale_readin :
+  exists fuel rs sep lang input b v,
+    (* a resume after HALT with input "y"; READIN was left set by the previous, unmatched input "x" *)
+    getf (v_st v) FLAG_TERMINATE = false /\ s_input (v_st v) = Some input /\ getf (v_st v) FLAG_WAIT = true
+    /\ flags_ok (v_st v) /\ getf (v_st v) FLAG_READIN = true
+    /\ where_sym (v_st v) = catch_sym /\ s_path (v_st v) = [s2b "root"; s2b "_catch"]
+    (* the pending code is MOVE end1: outside the guard *)
+    /\ b = encode (IMove (s2b "end1")) /\ starts_with_incmp b = false
+    /\ (let '(v', b', st) := run fuel rs sep lang b v in
+        (* no INCMP is executed, yet "y" is reported invalid, the session does not terminate and the
+           stack has grown by two levels *)
+        st = SOk /\ log_incmps (v_log v') = log_incmps (v_log v)
+        /\ p_err (v_pg v') = Some (s2b "invalid input: 'y'")
+        /\ getf (v_st v') FLAG_TERMINATE = false /\ getf (v_st v') FLAG_READIN = true
+        /\ s_path (v_st v') = [s2b "root"; s2b "_catch"; s2b "end1"; s2b "_catch"])
+    (* the same machine with READIN clear terminates, as intended *)
+    /\ (let '(v', b', st) := run fuel rs sep lang b (vset_st v (resetf (v_st v) FLAG_READIN)) in
+        st = SOk /\ p_err (v_pg v') = None /\ getf (v_st v') FLAG_TERMINATE = true
+        /\ s_path (v_st v') = [s2b "root"; s2b "_catch"; s2b "end1"]).
+Proof. exact stale_readin_refuted_lemma. Qed.
+
 (* ---- non-vacuity ------------------------------------------------------------------------------------ *)
 (* machine: stopped at root's HALT (path [root], WAIT set), page idx, the client's answer as input *)
 Example C03_start_nonvacuous :
@@ -239,6 +290,16 @@ Example C03_dupsel_engine :
   /\ log_fired (v_log (e_v e)) = [(s2b "foo", s2b "1"); (s2b "bar", s2b "1")].
 Proof. vm_compute. repeat split. Qed.
 
+(* engine level, K-C03-stale-readin: requests "", x, y, z on the witness application (same outputs as the
+   real engine): every input after "x" is answered "invalid input" and the stack grows by two levels *)
+Example C03_stale_readin_engine :
+  let '(e, outs) := stale_long (new_engine ex_cfg None [] []) [[]; s2b "x"; s2b "y"; s2b "z"] in
+  outs = [s2b "root"; s2b "invalid input: 'x'" ++ [10] ++ s2b "catch";
+          s2b "invalid input: 'y'" ++ [10] ++ s2b "catch"; s2b "invalid input: 'z'" ++ [10] ++ s2b "catch"]
+  /\ s_path (v_st (e_v e)) = [s2b "root"; s2b "_catch"; s2b "end1"; s2b "_catch"; s2b "end1"; s2b "_catch"]
+  /\ getf (v_st (e_v e)) FLAG_TERMINATE = false.
+Proof. vm_compute. repeat split. Qed.
+
 Print Assumptions C03_run_unfold.
 Print Assumptions C03_resume_is_start.
 Print Assumptions C03_stale_readin_irrelevant.
@@ -252,3 +313,6 @@ Print Assumptions C03_at_most_one_move_partial.
 Print Assumptions C03_at_most_one_move_refuted_dupsel.
 Print Assumptions C03_wildcard_after_match_ignored.
 Print Assumptions C03_valid_input_not_wildcard.
+Print Assumptions C03_invalid_input_is_current_partial.
+Print Assumptions C03_starts_with_incmp_block.
+Print Assumptions C03_refuted_stale_readin.
